@@ -774,6 +774,15 @@ def _derived(fn_node, seeds: set[str]) -> set[str]:
     return out
 
 
+def _ret_name(e):
+    """`x` or `f(x)` (a clean-up helper applied to one local): the local's name."""
+    if isinstance(e, ast.Name):
+        return e.id
+    if isinstance(e, ast.Call) and len(e.args) == 1 and not e.keywords and isinstance(e.args[0], ast.Name):
+        return e.args[0].id
+    return None
+
+
 def rule_bytes(ctx: Ctx) -> RuleReport:
     """The bytes that become text are the bytes of the source, decoded once, with the charset judged on all of them."""
     rep = RuleReport("C02-BYTES", "bytes that become body text: MIME parts are recovered through the bytes API, nothing is transcoded before a reader that sniffs its own charset, "
@@ -880,12 +889,12 @@ def rule_bytes(ctx: Ctx) -> RuleReport:
     # (g) the stdlib-based mail reader: inside the walk over the parts every inline text part contributes to the body
     mb = ctx.p.module(X + "mail/mbox_email_extractor.py")
     walkers = [fi for fi in mb.functions.values() if any(isinstance(l, ast.For) and isinstance(l.iter, ast.Call) and isinstance(l.iter.func, ast.Attribute) and l.iter.func.attr == "walk" for l in walk_own(fi.node))
-               and any(isinstance(r, ast.Return) and isinstance(r.value, ast.Tuple) and len(r.value.elts) == 2 and all(isinstance(e, ast.Name) for e in r.value.elts) for r in walk_own(fi.node))]
+               and any(isinstance(r, ast.Return) and isinstance(r.value, ast.Tuple) and len(r.value.elts) == 2 and all(_ret_name(e) for e in r.value.elts) for r in walk_own(fi.node))]
     if len(walkers) != 1:
         raise AnalysisError("C02-BYTES: the body collector of the mbox reader (walk loop returning (plain, html)) was not found")
     bw = walkers[0]
     rep.unit(bw.key)
-    bodies = {e.id for r in walk_own(bw.node) if isinstance(r, ast.Return) and isinstance(r.value, ast.Tuple) for e in r.value.elts if isinstance(e, ast.Name)}
+    bodies = {_ret_name(e) for r in walk_own(bw.node) if isinstance(r, ast.Return) and isinstance(r.value, ast.Tuple) for e in r.value.elts if _ret_name(e)}
     loop = next(l for l in walk_own(bw.node) if isinstance(l, ast.For) and isinstance(l.iter, ast.Call) and isinstance(l.iter.func, ast.Attribute) and l.iter.func.attr == "walk")
     for b in sorted(bodies):
         stores = [a for a in ast.walk(loop) if isinstance(a, (ast.Assign, ast.AugAssign)) and any(isinstance(t, ast.Name) and t.id == b for t in (a.targets if isinstance(a, ast.Assign) else [a.target]))]
